@@ -213,8 +213,13 @@ CORPUS = FINDING_LINES + ["nt_rec win 4 1", "nt_rec win 2 0", "nt_inv -1 5", "nt
           "nt_gcd_ext basic 0 5", "nt_inv 3 7", "nt_mxp basic 2 -1 7", "nt_mxp slide 0 0 7", "nt_rec naf 2 0", "nt_rec win 4 1", "nt_srt 0"]
 
 
+# one oracle for every user of the nt_* ops (C08 links the same one for its sanitizer streams and boundary sweeps)
+ORACLE_DEFS = ("ORACLE_NT", "ORACLE_EXTRA2=ops_nt_mxp")
+ORACLE_SOURCES = ("oracle.c", "ops_bn.c", "ops_nt.c", "ops_nt_mxp.c")
+
+
 def _exe(ctx, cfg):
-    return ctx.oracle(cfg, defs=("ORACLE_NT", "ORACLE_EXTRA2=ops_nt_mxp"), sources=("oracle.c", "ops_bn.c", "ops_nt.c", "ops_nt_mxp.c"), tag="_nt")
+    return ctx.oracle(cfg, defs=ORACLE_DEFS, sources=ORACLE_SOURCES, tag="_nt")
 
 
 def streams(ctx, scale=1):
